@@ -1,0 +1,45 @@
+//! Verification hooks, compiled only with the `verif` cargo feature (off by default).
+//!
+//! `emit` reports an internal event to an optional process-global observer and
+//! `pause` calls an optional process-global pause handler at a named point, so
+//! that an external monitor can watch executions or force a schedule. Without a
+//! registered handler both are no-ops.
+use std::sync::atomic::{AtomicUsize, Ordering};
+
+/// Observer callback: `(kind, a, b, text)`.
+pub type Observer = fn(&'static str, u64, u64, &str);
+
+/// Pause callback: `(point, a)`.
+pub type Pauser = fn(&'static str, u64);
+
+static OBSERVER: AtomicUsize = AtomicUsize::new(0);
+
+static PAUSER: AtomicUsize = AtomicUsize::new(0);
+
+/// Install (or remove) the process-global observer.
+pub fn set_observer(f: Option<Observer>) {
+    OBSERVER.store(f.map_or(0, |f| f as usize), Ordering::SeqCst);
+}
+
+/// Install (or remove) the process-global pause handler.
+pub fn set_pauser(f: Option<Pauser>) {
+    PAUSER.store(f.map_or(0, |f| f as usize), Ordering::SeqCst);
+}
+
+/// Report an event to the observer, if any.
+pub fn emit(kind: &'static str, a: u64, b: u64, text: &str) {
+    let p = OBSERVER.load(Ordering::SeqCst);
+    if p != 0 {
+        let f: Observer = unsafe { std::mem::transmute::<usize, Observer>(p) };
+        f(kind, a, b, text);
+    }
+}
+
+/// Call the pause handler, if any.
+pub fn pause(point: &'static str, a: u64) {
+    let p = PAUSER.load(Ordering::SeqCst);
+    if p != 0 {
+        let f: Pauser = unsafe { std::mem::transmute::<usize, Pauser>(p) };
+        f(point, a);
+    }
+}
